@@ -43,7 +43,15 @@ impl short_weierstrass::SWCurveConfig for Config {
     }
 
     fn mul_projective(p: &G1Projective, scalar: &[u64]) -> G1Projective {
-        let s = Self::ScalarField::from_sign_and_limbs(true, scalar);
+        // `scalar` is an arbitrary integer: it may have more limbs than the scalar field
+        // (`from_sign_and_limbs` only accepts up to that many and reduces modulo `r`).
+        let s = if scalar.len() <= Self::ScalarField::MODULUS.0.len() {
+            Self::ScalarField::from_sign_and_limbs(true, scalar)
+        } else {
+            let bytes: ark_std::vec::Vec<u8> =
+                scalar.iter().flat_map(|limb| limb.to_le_bytes()).collect();
+            Self::ScalarField::from_le_bytes_mod_order(&bytes)
+        };
         GLVConfig::glv_mul_projective(*p, s)
     }
 
